@@ -292,6 +292,10 @@ PROPS = {
                 kh(f"c12_decoders_never_panic_len{n}", f"record bytes: from_record / is_record_of_type_chunk / try_deserialize_record on {n}-byte records (shared with C12)", f"all contents, length {n}", K_STUBS_TRACING + ["rmp_serde::from_slice -> Err"])
                 for n in (0, 1, 2, 3, 4)
             ]},
+            {"engine": "D", "crate": "d_boot", "harnesses": [
+                {"name": "c18_untrusted_file", "covers": ["loaded"], "quick": {"max_paths": 10000, "timeout": 300}},
+                {"name": "c18_corrupt", "covers": ["loaded_corrupt"], "quick": {"max_paths": 1000, "timeout": 300}},
+            ]},
             {"engine": "K", "crate": "k_evm", "harnesses": [
                 kh("c16_from_str_len1", "AttoTokens::from_str never panics on any 1-character ASCII string (shared with C16, which goes to length 3/4)", "length 1", quick=600),
             ]},
@@ -311,6 +315,7 @@ PROPS = {
                 {"name": "c18_shapes", "covers": ["stored", "refused"], "quick": {"max_paths": 1000, "timeout": 300}},
                 {"name": "c18_sync_flush", "covers": ["merge_with_cleanup", "merge_without_cleanup", "overlap"], "quick": {"max_paths": 100000, "timeout": 600}},
                 {"name": "c18_corrupt", "covers": ["loaded_corrupt"], "quick": {"max_paths": 1000, "timeout": 300}},
+                {"name": "c18_untrusted_file", "covers": ["loaded"], "quick": {"max_paths": 10000, "timeout": 300}},
             ]},
         ],
         "assumptions": [
